@@ -82,6 +82,12 @@ def _build():
                 continue
             _add(nm, Q(items=items, **mods[m]), H3, a=(['sss'] if m == 'count' else None), quick=(j == 0 and lk in ('a2,a1,NR,expr-as,5', 'arr2,arr1-AS,len', 'star,NR', 'a3,a4', 'nested,litc,tup', 'lit,a2,star,a2')) or m == 'count')
     _add('hdr[a1,a2|count]', Q(items=[fa(1), fa(2)], distinct='count'), H3, quick=True)
+    # aliases on expressions whose top-level operator binds weaker than a comparison
+    LOWP = [Item('a1 or a2', lambda e: e.a(1) or e.a(2)), Item('a1 and a2', lambda e: e.a(1) and e.a(2)), Item('not a2', lambda e: not e.a(2)),
+            Item('a1 if a2 else "n/a"', lambda e: e.a(1) if e.a(2) else 'n/a'), Item('a1 == a2', lambda e: e.a(1) == e.a(2)), Item('lambda_free(a1)' if False else 'a1 in (a2, a3)', lambda e: e.a(1) in (e.a(2), e.a(3)))]
+    _add('hdr[lowprec-aliases]', Q(items=[alias(LOWP[0], 'x'), alias(LOWP[1], 'y', 'AS'), fa(1)]), H3, quick=True)
+    _add('hdr[lowprec-aliases2]', Q(items=[alias(LOWP[2], 'n'), alias(LOWP[3], 't', 'AS'), alias(LOWP[4], 'eq'), alias(LOWP[5], 'isin')]), H3, a=['sss'], quick=True)
+    _add('nohdr[lowprec-alias]', Q(items=[fa(1), alias(LOWP[0], 'x')]), None, quick=True)
     _add('hdr[star|count]', Q(items=[STAR], distinct='count'), H3)
     _add('hdr[a1-as|count]', Q(items=[alias(fa(1), 'k')], distinct='count'), H3)
     # EXCEPT / aggregates / UPDATE
@@ -110,7 +116,8 @@ def _build():
     _add('nohdr[a1,a2]', Q(items=[fa(1), fa(2)]), None, quick=True)
     _add('nohdr[star]', Q(items=[STAR, NR]), None)
     _add('nohdr[alias]', Q(items=[alias(NR, 'my_NR'), alias(fa(1), 'v', 'AS'), LEN1, fa(3)]), None, quick=True)
-    _add('nohdr[alias|count]', Q(items=[alias(fa(1), 'v')], distinct='count'), None)
+    _add('nohdr[alias|count]', Q(items=[alias(fa(1), 'v')], distinct='count'), None, quick=True)
+    _add('nohdr[alias,a2|count]', Q(items=[fa(2), alias(fa(1), 'v', 'AS')], distinct='count'), None)
     _add('nohdr[star+alias]', Q(items=[STAR, alias(LEN1, 'l')]), None, quick=True)
     _add('nohdr[update]', Q(update=[('a1', 0, 'a2', lambda e: e.a(2))]), None)
     _add('nohdr[except]', Q(excpt=[0], excpt_text='a1'), None)
